@@ -227,7 +227,8 @@ let handle f =
         let wb = p_workbook () in
         let st = store_of wb in
         let eqn a b = bits_of_float a = bits_of_float b in
-        let bad = List.filter (fun c -> not (values_consistent_b ops eqn st.cont [c])) cells in
+        let all = List.map fst wb in
+        let bad = List.filter (fun c -> not (values_consistent_in_b ops eqn st.cont all [c])) cells in
         if bad = [] then "consistent" else "inconsistent " ^ String.concat " " (List.map (fun c -> Printf.sprintf "%d,%d,%d" (int_of_z c.c_sheet) (int_of_z c.c_row) (int_of_z c.c_col)) bad)
     | "den" :: rest ->
         toks := rest;
